@@ -67,8 +67,12 @@ def state(obj, _depth=0):
             c.sort_indices()
             out[k] = ("sparse", c.shape, c.data.copy(), c.indices.copy(), c.indptr.copy())
         elif isinstance(v, dict):
-            out[k] = [(kk, vv.copy() if isinstance(vv, np.ndarray) else vv) for kk, vv in v.items()]
-        elif hasattr(v, "__dict__") and not callable(v) and _depth < 4:
+            out[k] = [(kk, vv.copy() if isinstance(vv, np.ndarray) else
+                       (state(vv, _depth + 1) if hasattr(vv, "__dict__") and not callable(vv) and _depth < 6 else vv))
+                      for kk, vv in v.items()]
+        elif isinstance(v, list) and v and all(hasattr(x, "__dict__") and not callable(x) for x in v) and _depth < 6:
+            out[k] = [state(x, _depth + 1) for x in v]
+        elif hasattr(v, "__dict__") and not callable(v) and _depth < 6:
             out[k] = state(v, _depth + 1)
         else:
             out[k] = v
@@ -123,13 +127,13 @@ def buffers(obj, _depth=0, prefix=""):
             for kk, vv in v.items():
                 if isinstance(vv, np.ndarray):
                     out.append((p + "[%r]" % (kk,), vv))
-                elif hasattr(vv, "__dict__") and _depth < 4:
+                elif hasattr(vv, "__dict__") and not callable(vv) and _depth < 6:
                     out += buffers(vv, _depth + 1, p + "[%r]" % (kk,))
         elif isinstance(v, list):
             for i, vv in enumerate(v):
-                if hasattr(vv, "__dict__") and not callable(vv) and _depth < 4:
+                if hasattr(vv, "__dict__") and not callable(vv) and _depth < 6:
                     out += buffers(vv, _depth + 1, p + "[%d]" % i)
-        elif hasattr(v, "__dict__") and not callable(v) and not isinstance(v, type) and _depth < 4:
+        elif hasattr(v, "__dict__") and not callable(v) and not isinstance(v, type) and _depth < 6:
             out += buffers(v, _depth + 1, p)
     return out
 
